@@ -159,6 +159,17 @@ def check_rows(E: Engine, rep: Report, rule: str, rows: list[dict], source: str 
                     else:
                         found_wrong.append((line, a, f"relation is {a.quant + ':' if a.quant else ''}{a.rel}, the property requires {row.get('quant', '') + ':' if row.get('quant') else ''}{row['rel']}"))
             where = f"{f.module.relpath}:{(found_ok[0] if found_ok else (found_wrong[0][0] if found_wrong else f.node.lineno))} ({f.short})"
+            if not found_ok and not found_wrong and source == "raise":
+                # the abstraction lost the atom (guards written as a table of cases, a loop over a literal tuple,
+                # a callee held in a local): decide the row on the symbolic normal form instead
+                fb = _sym_fallback(E, f, row)
+                if fb is not None:
+                    ok_, text = fb
+                    if ok_:
+                        rep.ok(rule, key, f"{row['why']}: {text} [matched on the symbolic normal form]", where)
+                    else:
+                        rep.violation(rule, key, f"{row['why']}: rejection condition {text}", where)
+                    continue
             if found_ok and not found_wrong:
                 rep.ok(rule, key, f"{row['why']}: {found_ok[1].show()}", where)
             elif found_wrong:
@@ -166,3 +177,81 @@ def check_rows(E: Engine, rep: Report, rule: str, rows: list[dict], source: str 
                 rep.violation(rule, key, f"{row['why']}: rejection atom {a.show()} -- {msg}", where)
             else:
                 rep.violation(rule, key, f"{row['why']}: no rejection atom relating {row['quantity']} {row.get('q_tags', [])} to {row['limit']} found in {f.short} (limit not enforced)", where)
+
+
+# ------------------------------------------------------------------ fallback on the symbolic normal form
+_TAG_CALLS = {
+    "max": {"max", "amax"}, "min": {"min", "amin"}, "sum": {"sum"}, "len": {"len"}, "avg": {"mean", "average"}, "norm": {"norm"},
+    "int": {"int"}, "abs": {"abs", "absolute", "fabs"},
+}
+_MIRROR = {"Lt": "Gt", "Gt": "Lt", "LtE": "GtE", "GtE": "LtE", "Eq": "Eq", "NotEq": "NotEq"}
+
+
+def _sym_root(t, root: str) -> bool:
+    from . import sym
+
+    if root.startswith("const:"):
+        v = root[6:]
+        return t[0] == "const" and repr(t[1]) in (v, v + ".0") or (t[0] == "const" and isinstance(t[1], (int, float)) and not isinstance(t[1], bool) and v in ("0",) and t[1] == 0)
+    if root.startswith("arg<-"):
+        root = root[5:]
+    return sym.contains(t, sym.Pattern(root).term)
+
+
+def _sym_tag(t, tag: str) -> bool:
+    from . import sym
+
+    if tag == "Mult":
+        return any(x[0] == "mul" for x in sym.subterms(t))
+    names = _TAG_CALLS.get(tag, {tag})
+    for x in sym.subterms(t):
+        if x[0] == "call":
+            fn = x[1]
+            nm = fn[1] if fn[0] == "name" else fn[2] if fn[0] == "attr" else None
+            if nm in names:
+                return True
+    return False
+
+
+def _sym_side(t, roots, tags, not_tags=()) -> bool:
+    return all(_sym_root(t, r) for r in roots) and all(_sym_tag(t, g) for g in tags) and not any(_sym_tag(t, g) for g in not_tags)
+
+
+def _sym_fallback(E: Engine, f: FunctionInfo, row: dict) -> Optional[tuple[bool, str]]:
+    """(True, atom) when a raise of ``f`` is guarded by the row's atom, (False, why) when the atom is there with the
+    wrong relation / without its None guard, None when no atom relating the two sides exists."""
+    from . import sym
+    from .rules.symutil import dnf
+
+    if row.get("limit_num"):
+        return None
+    S = sym.sym_of(E.P, f, True)
+    wrong: Optional[tuple[bool, str]] = None
+    for l in S.logged("raise"):
+        for conj in dnf(l.cond):
+            for lit in conj:
+                core, quant = lit, ""
+                if core[0] == "call" and len(core[2]) == 1 and not core[3]:
+                    fn = core[1]
+                    nm = fn[1] if fn[0] == "name" else fn[2] if fn[0] == "attr" else None
+                    if nm in ("any", "all"):
+                        core, quant = core[2][0], nm
+                        while core[0] == "obj":
+                            core = core[2]
+                if core[0] != "cmp" or core[1] not in _MIRROR:
+                    continue
+                for q, lim, rel in ((core[2], core[3], core[1]), (core[3], core[2], _MIRROR[core[1]])):
+                    if not (_sym_side(q, row["quantity"], row.get("q_tags", []), row.get("not_q_tags", ())) and _sym_side(lim, row["limit"], row.get("l_tags", []))):
+                        continue
+                    text = sym.show(lit)[:120]
+                    if rel != row["rel"] or (row.get("quant") and quant != row["quant"]):
+                        wrong = (False, f"`{text}`: relation is {quant + ':' if quant else ''}{rel}, the property requires {row.get('quant', '') + ':' if row.get('quant') else ''}{row['rel']}")
+                        continue
+                    if row.get("none_guard"):
+                        lt = [sym.Pattern(r).term for r in row["limit"] if not r.startswith(("const:", "arg<-"))]
+                        g = any(x[0] == "cmp" and x[1] == "IsNot" and sym.NONE in (x[2], x[3]) and all(t_ in (x[2], x[3]) for t_ in lt) for x in conj)
+                        if not g:
+                            wrong = (False, f"`{text}`: limit compared without a dominating `is not None` guard")
+                            continue
+                    return True, text
+    return wrong
